@@ -339,7 +339,7 @@ func (self *TransparencyBinaryServerProtocol) CheckClient() (*TransparencyBinary
 	}
 
 	self.manager.glock.Lock()
-	clientProtocol, err := self.manager.OpenClient(self.initCommand)
+	clientProtocol, err := self.manager.OpenClient(self.initCommand, self)
 	if err != nil {
 		self.manager.glock.Unlock()
 		return nil, err
@@ -1498,7 +1498,7 @@ func (self *TransparencyManager) AcquireClient(serverProtocol ServerProtocol) (*
 	}
 
 	if self.idleClients == nil {
-		binaryClient, err := self.OpenClient(nil)
+		binaryClient, err := self.OpenClient(nil, serverProtocol)
 		if err != nil {
 			return binaryClient, err
 		}
@@ -1558,13 +1558,14 @@ func (self *TransparencyManager) ReleaseClient(binaryClient *TransparencyBinaryC
 	return nil
 }
 
-func (self *TransparencyManager) OpenClient(initCommand *protocol.InitCommand) (*TransparencyBinaryClientProtocol, error) {
+func (self *TransparencyManager) OpenClient(initCommand *protocol.InitCommand, serverProtocol ServerProtocol) (*TransparencyBinaryClientProtocol, error) {
 	if self.closed || self.slock.state == STATE_LEADER || self.leaderAddress == "" {
 		return nil, errors.New("can not create new client")
 	}
 
 	binaryClient := NewTransparencyBinaryClientProtocol(self)
 	binaryClient.initCommand = initCommand
+	binaryClient.serverProtocol = serverProtocol // before Process starts: the leader's answer to the INIT written by Open must find its way back
 	err := binaryClient.Open(self.leaderAddress)
 	if err != nil {
 		return nil, err
